@@ -202,6 +202,10 @@ def judge(problems: List[str], host_name: str, w: World, queries: List[Query], t
 # --------------------------------------------------------------------------------------------------
 
 
+def decoded_trace_of(w: World, hname: str) -> List[Decoded]:
+    return [Decoded(s) for s in w.net.trace if s.host == hname]
+
+
 def points(tier: str) -> List[Dict[str, Any]]:
     pts: List[Dict[str, Any]] = []
     # F1: one query, every jitter value, sighting ages around one second
@@ -236,6 +240,10 @@ def points(tier: str) -> List[Dict[str, Any]]:
             for upd in (5, 15, 130):
                 for js in ((0.0,), (1.0,)):
                     pts.append({"fam": "multi", "kinds": [kind], "gaps": [], "age": age, "jitter": list(js), "update_after": upd})
+    for kind in ("aaaaB+ptrB", "ptrB"):
+        for age in (5000, 500):
+            for upd in (5, 15, 130):
+                pts.append({"fam": "multi", "kinds": [kind], "gaps": [], "age": age, "jitter": [1.0], "update_after": upd, "move": "sole"})
     # the same query datagram (id 0, as every real querier sends it) repeated
     for kind in ("ptr", "ptr+txt", "srv"):
         for gs in [(g,) for g in (1, 150, 500, 700, 999, 1000, 1001, 1500)] + \
@@ -327,14 +335,29 @@ def _run_point(p: Dict[str, Any], verbose: bool = False) -> Tuple[Optional[Dict[
                 # while the answers wait in a queue, another service that shares the host name is moved to a host of its own by
                 # an update: what was queued for the host name stays due (its other user is still registered)
                 moved = Svc(S2.type, S2.name, "h9.local.", S2.port, S2.text, [bytes([10, 0, 0, 9])], [])
+                if p.get("move") == "sole":
+                    # ... or the ONLY user of a host name is moved away: nothing owned by that host name is current any more
+                    moved = Svc(S3.type, S3.name, "h9.local.", S3.port, S3.text, [bytes([10, 0, 0, 9])], [])
                 w.loop.call_at((t_begin + p["update_after"]) / 1000,
                                lambda: w.spawn(host.zc.async_update_service(make_info(moved, None))))
             drive(w, host, script, t + 2500)
             floor = None
             if fam == "single":
                 floor = {0: float(p["draw"])}
-            judge(problems, host.name, w, queries, t_begin, floor, wire_sightings(w, host))
-            if problems:
+            if p.get("move") == "sole":
+                # the asked host name has no records any more when the answer is due: the envelope oracle does not apply; what
+                # must hold is that nothing owned by the abandoned host name is multicast once the update has been made
+                t_upd = t_begin + p["update_after"]
+                for d in decoded_trace_of(w, host.name):
+                    if d.t_ms > t_upd + 0.5 and d.multicast and d.is_response:
+                        old = [r for r in d.msg.records() if r[0] in ("A", "AAAA") and r[1].lower() == S3.server and r[3] > 0]
+                        if old:
+                            problems.append(f"stale: {old[0][:2]} multicast {d.t_ms - t_upd:.0f} ms after the update moved the only "
+                                            f"service of that host name to another host")
+                            break
+            else:
+                judge(problems, host.name, w, queries, t_begin, floor, wire_sightings(w, host))
+            if problems and p.get("move") != "sole":
                 # would the envelope hold if only the datagrams the host *processed* counted as sightings? then the
                 # mismatch is the known interplay with the duplicate-datagram guard (identical consecutive packets)
                 again: List[str] = []
